@@ -223,7 +223,7 @@ func cmdCheck(args []string) int {
 		fmt.Fprintf(os.Stderr, "BROKEN property=%s: cannot load /repo: %v\n", id, err)
 		return 2
 	}
-	timeout := 20
+	timeout := 30
 	all := false
 	if *tier == "thorough" {
 		timeout = 90
